@@ -326,6 +326,8 @@ class C25(Check):
                 out.violate("loss-raised", label, "connection loss during TLS handshake propagated: %r" % (exc,))
             elif connected:
                 out.violate("loss-connected", label, "reports connected after handshake loss")
+            elif cutoff is False:
+                out.violate("loss-no-cutoff", label, "cutoff not set after a connection loss during the TLS handshake")
         elif c["cls"] == "block":
             if exc is not None:
                 out.violate("block-raised", label, "want-read/write during handshake propagated: %r" % (exc,))
